@@ -39,7 +39,7 @@ fn cfg(tier: Tier) -> ProgCfg {
             ..OpMix::NONE
         },
         wmix: WriteMix { bad_decls: true, meta: true, by_hash: true, rich_matching: false, interfere: false },
-        sizes: SizeMix::Small,
+        sizes: SizeMix::Normal,
         keys: (2, 6),
         blobs: (1, 3),
         max_steps: tier.pick(14, 24),
@@ -96,7 +96,8 @@ fn snapshot(root: &Path, exclude: &[&Path]) -> Snap {
                 let t = std::fs::read_link(&p).map(|t| t.to_string_lossy().to_string()).unwrap_or_default();
                 out.insert(rel, (md.len(), md.mtime(), md.mtime_nsec(), format!("-> {t}")));
             } else {
-                let h = std::fs::read(&p).map(|b| sha256_hex(&b)).unwrap_or_default();
+                // content hashes for files up to 64 KiB; larger ones are covered by size + mtime
+                let h = if md.len() <= 65536 { std::fs::read(&p).map(|b| sha256_hex(&b)).unwrap_or_default() } else { String::from("(large)") };
                 out.insert(rel, (md.len(), md.mtime(), md.mtime_nsec(), h));
             }
         }
@@ -163,7 +164,7 @@ impl Engine for C15 {
         ]
     }
     fn random_cases(&self, tier: Tier) -> u32 {
-        tier.pick(1200, 8000)
+        tier.pick(800, 8000)
     }
     fn strategy(&self, tier: Tier) -> BoxedStrategy<Program> {
         hostile_program(tier)
@@ -171,6 +172,28 @@ impl Engine for C15 {
     fn exhaustive(&self, _tier: Tier) -> Vec<Program> {
         // every hostile key once: write (both flavours), lookup, remove, re-write, full removal
         let mut out = Vec::new();
+        // large entries through every extraction entry point (implementations may treat sizes
+        // differently; the destination is the only path outside the cache that may be touched)
+        for len in [300_000usize, (1 << 20) + 1] {
+            let keys = vec!["big".to_string(), "dir/../big".to_string()];
+            let blobs = vec![crate::blob::Blob::new(len, 5), crate::blob::Blob::new(7, 6)];
+            let mut steps = vec![Step { op: Op::Write(WriteSpec::simple(Some(0), 0)), fl: Fl::Async }, Step { op: Op::Write(WriteSpec::simple(Some(1), 0)), fl: Fl::Sync }];
+            let a = AddrRef { algo: crate::blob::Algo::Sha256, blob: 0 };
+            for fl in [Fl::Sync, Fl::Async] {
+                for kind in [XKind::Copy, XKind::HardLink, XKind::Reflink] {
+                    for checked in [true, false] {
+                        for by in [By::Key(0), By::Addr(a)] {
+                            for dest in [Dest::Absent, Dest::Existing] {
+                                steps.push(Step { op: Op::Extract { kind, checked, by, dest }, fl });
+                            }
+                        }
+                    }
+                }
+                steps.push(Step { op: Op::Read { key: 1 }, fl });
+                steps.push(Step { op: Op::Stream { by: By::Key(0), bufs: vec![70000] }, fl });
+            }
+            out.push(Program { keys, blobs, steps });
+        }
         let hk = gen::hostile_keys();
         for (i, pair) in hk.chunks(2).enumerate() {
             let keys: Vec<String> = pair.to_vec();
@@ -339,7 +362,9 @@ impl Engine for C15 {
             for p in g.gate.paths() {
                 let p = normalise(&p);
                 // (a) containment
-                let ok = under(&p, &cache_c) || under(&p, &cache) || (is_extract && (under(&p, &work_c) || under(&p, &work)) && p.file_name().map(|n| n.to_string_lossy().starts_with("dest_")).unwrap_or(false));
+                // destinations on the other filesystem live under <root>/cvh-x.<pid of the driver>/<tag>/
+                let on_xfs = { let t = p.to_string_lossy(); t.starts_with("/var/tmp/cvh-x.") || t.starts_with("/dev/shm/cvh-x.") };
+                let ok = under(&p, &cache_c) || under(&p, &cache) || (is_extract && on_xfs && p.file_name().map(|n| { let n = n.to_string_lossy(); n.starts_with("dest_") && n[5..].bytes().all(|b| b.is_ascii_digit()) }).unwrap_or(false)) || (is_extract && (under(&p, &work_c) || under(&p, &work)) && p.file_name().map(|n| { let n = n.to_string_lossy(); n.starts_with("dest_") && n[5..].bytes().all(|b| b.is_ascii_digit()) }).unwrap_or(false));
                 if !ok {
                     return Err(format!(
                         "{} touched {} outside the cache directory {} ({})",
